@@ -32,10 +32,45 @@ def T(fmmu, insz, outsz, *devs):
     return dict(fmmu=fmmu, insz=insz, outsz=outsz, devs=list(devs))
 
 
+def X(which, insz, outsz, *devs):
+    """a terminal of a class that lays out its OWN datagrams (overrides EBPFTerminal.allocate, e.g.
+    ebpfcat.terminals.AerotechBase): `which` indexes own_layout_classes().  insz / outsz are the bytes
+    the class transfers (in_size / out_size); the sync managers themselves are larger."""
+    return dict(fmmu=False, own=which, insz=insz, outsz=outsz, devs=list(devs))
+
+
+def own_layout_classes():
+    """every terminal class of the package that overrides EBPFTerminal.allocate, found by introspection
+    (so that a class added later is covered too), in a stable order"""
+    import importlib
+    import pkgutil
+    import ebpfcat
+    from ebpfcat.ebpfcat import EBPFTerminal
+    for m in pkgutil.iter_modules(ebpfcat.__path__):
+        if m.name.endswith("_test") or m.name in ("scripts", "testdata"):
+            continue
+        try:
+            importlib.import_module("ebpfcat." + m.name)
+        except Exception:
+            pass
+    out, todo = [], list(EBPFTerminal.__subclasses__())
+    while todo:
+        c = todo.pop()
+        todo.extend(c.__subclasses__())
+        if "allocate" in c.__dict__ and c.__module__.startswith("ebpfcat.") and c not in out:
+            out.append(c)
+    return sorted(out, key=lambda c: (c.__module__, c.__qualname__))
+
+
 def writers_of(layout):
     """number of write datagrams the configuration calls for (harness-side bookkeeping only)"""
     rw = [t for t in layout if t["outsz"] and any(d[0] in ("ao", "do", "ro") for d in t["devs"])]
     return sum(1 for t in rw if not t["fmmu"]) + (1 if any(t["fmmu"] for t in rw) else 0)
+
+
+# the layout the dispatcher histories of C22 / C21 are explored with (one direct and one FMMU terminal)
+HISTORY_LAYOUT = dict(terms=[T(False, 2, 2, ("ao", 0), ("ai", 0)), T(True, 2, 2, ("ao", 0), ("ai", 0))],
+                      counter=False, ethertype=0xA0B1 + 6)
 
 
 def layouts(n, rng=None):
@@ -45,6 +80,7 @@ def layouts(n, rng=None):
     D = lambda o=0, b=0: ("do", o, b)
     I = lambda o=0, b=0: ("di", o, b)
     N = lambda o=0: ("ai", o)
+    nown = max(1, len(own_layout_classes()))
     base = [
         [T(False, 2, 4, A(0), I(0, 0))],
         [T(True, 2, 4, A(2), I(1, 3))],
@@ -67,6 +103,17 @@ def layouts(n, rng=None):
     ]
     for i, lay in enumerate(base):
         out.append(dict(terms=lay, counter=i % 5 == 4, ethertype=0x88A4 if i % 2 else 0xA0B1 + i))
+    # terminals whose class lays out its own datagrams: alone, read-only, next to ordinary direct / FMMU
+    # terminals, two of them - for EVERY such class of the package
+    own = []
+    for w in range(nown):
+        own += [[X(w, 8, 8, A(0), N(4))],
+                [T(False, 0, 2, A(0)), X(w, 4, 6, A(4), I(1, 2)), T(True, 2, 2, A(0), N(0))],
+                [X(w, 8, 0, N(2)), T(True, 0, 2, A(0))],
+                [X(w, 2, 2, A(0)), X(w, 0, 12, A(10), A(0))]]
+    for i, lay in enumerate(own):
+        out.insert(2 + 3 * i if 2 + 3 * i < len(out) else len(out),
+                   dict(terms=lay, counter=i % 3 == 2, ethertype=0x88A4 if i % 2 else 0xA1C0 + i))
     k = 0
     while len(out) < n:
         # systematic fill: combinations of direct / FMMU terminals with growing sizes
@@ -93,7 +140,10 @@ def layouts(n, rng=None):
                 devs = [("ao", rng.randrange(outsz - 1))] if outsz >= 2 else [("do", 0, rng.randrange(8))]
                 if insz:
                     devs.append(("di", rng.randrange(insz), rng.randrange(8)))
-                lay.append(T(rng.random() < 0.5, insz, outsz, *devs))
+                if rng.random() < 0.25:
+                    lay.append(X(rng.randrange(nown), insz, max(outsz, 2), *devs))
+                else:
+                    lay.append(T(rng.random() < 0.5, insz, outsz, *devs))
             out.append(dict(terms=lay, counter=rng.random() < 0.3, ethertype=rng.choice([0x88A4, 0xB000 + rng.randrange(256)])))
     return out
 
@@ -126,14 +176,23 @@ def build(layout, g=5, with_dispatcher=True, use_kernel=None, seed=1):
         ec = SimpleEtherCat("verif")
         ec.ethertype = layout["ethertype"]
         terms, devs = [], []
+        ownc = own_layout_classes()
         for i, t in enumerate(layout["terms"]):
-            term = Generic(ec)
+            if t.get("own") is not None and ownc:
+                # a concrete terminal type derived from the class, as its documentation asks for
+                base = ownc[t["own"] % len(ownc)]
+                term = type(f"Own{base.__name__}{i}", (base,), dict(in_size=t["insz"], out_size=t["outsz"]))(ec)
+                term.use_fmmu = True
+                term.pdo_in_sz = t["insz"] + 120 if t["insz"] else None
+                term.pdo_out_sz = t["outsz"] + 200 if t["outsz"] else None
+            else:
+                term = Generic(ec)
+                term.use_fmmu = t["fmmu"]
+                term.pdo_in_sz = t["insz"] or None
+                term.pdo_out_sz = t["outsz"] or None
             term.position = 1000 + 7 * i
-            term.use_fmmu = t["fmmu"]
-            term.pdo_in_sz = t["insz"] or None
-            term.pdo_in_off = 0x1100 + 0x40 * i
-            term.pdo_out_sz = t["outsz"] or None
-            term.pdo_out_off = 0x1000 + 0x40 * i
+            term.pdo_in_off = 0x1100 + 0x140 * i
+            term.pdo_out_off = 0x1000 + 0x140 * i
             term.name = f"t{i}"
             terms.append(term)
             for d in t["devs"]:
@@ -175,7 +234,7 @@ def build(layout, g=5, with_dispatcher=True, use_kernel=None, seed=1):
     r.sterile = eth(sg.packet.sterile(g, ec.ethertype))
     r.ref = eth(sg.packet.assemble(g, ec.ethertype))
     # configuration as the harness made it (not read back from the generator)
-    r.tla_terms = [dict(fmmu=bool(t["fmmu"]), insz=t["insz"], outsz=t["outsz"],
+    r.tla_terms = [dict(fmmu=bool(t["fmmu"]), own=t.get("own") is not None, insz=t["insz"], outsz=t["outsz"],
                         rw=any(d[0] in ("ao", "do") for d in t["devs"])) for t in layout["terms"]]
     props = bytearray(rng.getrandbits(8) for _ in range(r.props_size))
     props[r.wkc_off:r.wkc_off + 4] = bytes(4)
@@ -288,16 +347,41 @@ def foreign_frames(r, rng=None, n_random=6):
     for ln in (14, 15, 16, 17, 18, 22, 29):
         out.append((f"EtherCAT, {ln} bytes", eth(bytes(ln - 14))))
     out.append(("EtherCAT, first datagram cmd 4, 31 bytes", eth(b"\x0f\x10\x04" + bytes(14))))
-    for grp in (64, 1000, 0x7fffffff, 0xffffffff, 0x100 + r.g):
-        f = bytearray(r.sterile)
+    def named(grp, ix=0, body_of=None):
+        f = bytearray(body_of or r.sterile)
         f[18:22] = S.pack("<I", grp)
-        out.append((f"identification datagram, index {grp} (slow path)", bytes(f)))
+        f[INDEX0] = ix
+        return bytes(f)
+    for grp in (64, 65, 1000, 0x7fffffff, 0xffffffff, 0x100 + r.g):
+        out.append((f"identification datagram, index {grp} (slow path)", named(grp, r.sterile[INDEX0])))
     for grp in (0, 63, (r.g + 1) % 64):
-        f = bytearray(r.sterile)
-        f[18:22] = S.pack("<I", grp)
-        f[INDEX0] = 3
-        out.append((f"frame of fast group {grp} (nothing registered there)", bytes(f)))
+        out.append((f"frame of fast group {grp} (nothing registered there)", named(grp, 3)))
+        out.append((f"fresh frame of fast group {grp} (nothing registered there)", named(grp, 0)))
+    # indices that AGREE with a group number in their low bits: every way of reading less than the whole
+    # 32-bit field (8 / 16 / 24 bits, signed) turns them into frames of that group.  User space really
+    # sends such frames: EtherCat.roundtrip_packet draws its indices with randint(2000, 1000000000).
+    for low in (r.g, 0, 63):
+        for k in (8, 16, 24):
+            for m in (1, 0x55, 0xff):
+                if m << k < 1 << 32:
+                    grp = ((m << k) & 0xffffffff) | low
+                    for ix in (0, 1):
+                        out.append((f"index {grp:#x} (= group {low} in its low {k} bits)", named(grp, ix)))
+        out.append((f"index {0x80000000 | low:#x} (= group {low} without the top bit)", named(0x80000000 | low, 0)))
+        out.append((f"index {0xffffff00 | low:#x} (= group {low} in its low 8 bits, negative as a signed word)",
+                    named(0xffffff00 | low, 0)))
+    # the same with an ordinary user-space packet around it (Packet.assemble output, as the send loop produces)
+    from ebpfcat.ethercat import ECCmd, Packet
+    for grp in (0x10000 + r.g, 0x3b9a0000 + r.g, 2000, 1000000000):
+        p = Packet()
+        p.append(ECCmd.FPRD, bytes(20), 0, 7, 0x1000)
+        out.append((f"ordinary packet with index {grp:#x}", eth(p.assemble(grp, 0x3456))))
     if rng is not None:
+        for _ in range(max(4, n_random // 2)):         # indices as roundtrip_packet draws them, and aliases of groups
+            grp = rng.randint(2000, 1000000000)
+            out.append((f"random index {grp:#x}", named(grp, rng.randrange(256))))
+            grp = (rng.randint(1, 0xffff) << 16) | rng.randrange(64)
+            out.append((f"random index {grp:#x} (low half is a group number)", named(grp, rng.choice([0, 1, 255]))))
         for _ in range(n_random):
             ln = rng.randint(14, 120)
             f = bytearray(rng.getrandbits(8) for _ in range(ln))
